@@ -1071,6 +1071,8 @@ func (s *c41Sys) Key() string {
 		s.last = ""
 	}
 	var b strings.Builder
+	b.WriteString(s.sc.name)
+	b.WriteString("|")
 	var chain []string
 	for x := s.chain.head; x != nil; x = x.parent {
 		chain = append(chain, x.desc)
@@ -1099,26 +1101,26 @@ func c41Scenarios() []*c41Scenario {
 		},
 		{
 			// replacement rules in pending and queue, tip raises, inclusion of a different variant, reorg re-injection
-			name: "replace", cfg: c41Cfg(2, 3, 2, 3), depthQ: 4, depthT: 5,
+			name: "replace", cfg: c41Cfg(2, 3, 2, 3), depthQ: 5, depthT: 7,
 			ops: []string{"add:A0", "add:A0u", "add:A0b", "add:A0d", "add:A1", "add:A1b", "add:A2", "add:B0", "add:B0b",
 				"tip:105", "inc:A", "inc:B", "revert"},
 		},
 		{
 			// tiny limits: per-account and global truncation, eviction of the cheapest when full, future-vs-pending rule
-			name: "limits", cfg: c41Cfg(1, 2, 2, 2), depthQ: 4, depthT: 5,
+			name: "limits", cfg: c41Cfg(1, 2, 2, 2), depthQ: 4, depthT: 6,
 			init: []string{"batch:A0+A1"},
 			ops: []string{"add:A2", "add:A3", "add:B0", "add:B1", "add:B2", "add:B1b", "add:C0", "add:C1", "batch:B0+B1+B2",
 				"inc:A", "inc:B", "revert", "fee:115"},
 		},
 		{
 			// balances: unaffordable transactions in pending and queue, demotion of followers, costly replacements
-			name: "funds", cfg: c41Cfg(2, 4, 2, 3), depthQ: 4, depthT: 5,
+			name: "funds", cfg: c41Cfg(2, 4, 2, 3), depthQ: 4, depthT: 6,
 			ops: []string{"add:A0", "add:A1", "add:A1x", "add:A2", "add:B0x", "add:B1", "add:B0",
 				"bal:A:low", "bal:A:high", "bal:A:zero", "bal:B:low", "inc:A", "revert"},
 		},
 		{
 			// everything together, shallower
-			name: "mixed", cfg: c41Cfg(2, 3, 2, 3), depthQ: 3, depthT: 4,
+			name: "mixed", cfg: c41Cfg(2, 3, 2, 3), depthQ: 3, depthT: 5,
 			ops: []string{"add:A0", "add:A0b", "add:A0x", "add:A0d", "add:A1", "add:A1b", "add:A2",
 				"add:B0", "add:B0b", "add:B1", "add:B2", "add:C0", "add:C1",
 				"batch:A0+A1+A2+A3", "bal:A:low", "bal:A:high", "bal:B:low", "tip:105", "tip:1", "fee:115",
